@@ -38,9 +38,18 @@ def _scene(rng):
             shape[a] = 8
     lo = [rng.randrange(0, n - 1) for n in shape]
     hi = [rng.randrange(l + 1, n + 1) for l, n in zip(lo, shape)]
+    # two more slabs of IDENTICAL extent at different positions (different materials): equal-sized indexed updates of
+    # the same material array must each land at their own offset on every device count
+    sz = [rng.randrange(2, n // 2 + 1) for n in shape]
+    lo1 = [rng.randrange(0, n - z + 1) for n, z in zip(shape, sz)]
+    lo2 = [rng.randrange(0, n - z + 1) for n, z in zip(shape, sz)]
+    while lo2 == lo1:
+        lo2 = [rng.randrange(0, n - z + 1) for n, z in zip(shape, sz)]
+    twins = [{"name": "twinA", "lo": lo1, "hi": [l + z for l, z in zip(lo1, sz)], "eps": [4.0, 1.3, 2.2], "sigma": 0.0},
+             {"name": "twinB", "lo": lo2, "hi": [l + z for l, z in zip(lo2, sz)], "eps": [1.4, 3.6, 2.9], "sigma": 0.0}]
     inner = lambda: [rng.randrange(2, n - 2) for n in shape]
     return {"shape": shape, "T": 12, "res": 25e-9, "cf": 0.99, "pml": 2, "bounds": bounds,
-            "slabs": [{"lo": lo, "hi": hi, "eps": [2.0, 3.1, 1.6], "sigma": rng.choice([0.0, 100.0])}],
+            "slabs": [{"name": "slab0", "lo": lo, "hi": hi, "eps": [2.0, 3.1, 1.6], "sigma": rng.choice([0.0, 100.0])}] + twins,
             "sources": [{"kind": "dipole", "pos": inner(), "pol": rng.randrange(3), "wl": 400e-9}, {"kind": "mdipole", "pos": inner(), "pol": rng.randrange(3), "wl": 500e-9}],
             "detectors": [{"kind": "field", "name": "fd", "lo": [0, 1, 1], "hi": [shape[0], shape[1] - 1, shape[2] - 1], "exact": True, "switch": {"interval": 4}},
                           {"kind": "energy", "name": "en", "lo": [0, 0, 0], "hi": list(shape), "exact": True, "reduce": True},
